@@ -13,7 +13,7 @@ import math
 import random
 import sys
 
-from oxmpl_py.base import PlannerConfig, ProblemDefinition, RealVectorState, RealVectorStateSpace, SO2State, SO2StateSpace
+from oxmpl_py.base import PlannerConfig, ProblemDefinition, RealVectorState, RealVectorStateSpace, SO2State, SO2StateSpace, SO3State, SO3StateSpace
 from oxmpl_py.geometric import PRM, RRT, RRTConnect, RRTStar
 
 HITS = []
@@ -185,10 +185,108 @@ def fam_goal(seed):
                     report("py-goal", seed, "%s: path ends at %r outside the goal" % (tag, out[-1]))
 
 
+class PartialGoal(Goal):
+    """is_satisfied fails only on its k-th call, or only on the half of the goal disc that faces the start"""
+
+    def __init__(self, space, x, y, r, kind, k=0, fail_mode="raise", reference=False):
+        super().__init__(space, x, y, r)
+        self.kind, self.k, self.fail_mode, self.reference, self.calls = kind, k, fail_mode, reference, 0
+
+    def is_satisfied(self, s):
+        self.calls += 1
+        failing = (self.kind == "kth" and self.calls == self.k) or (self.kind == "half" and self.inside(s) and s.values[0] < self.c.values[0])
+        if failing:
+            if self.reference:
+                return False
+            if self.fail_mode == "raise":
+                raise Boom("is_satisfied failed")
+            return None
+        return self.inside(s)
+
+
+def fam_goal_partial(seed):
+    space = RealVectorStateSpace(dimension=2, bounds=[(0.0, 10.0), (0.0, 10.0)])
+    start = RealVectorState([1.0, 5.0])
+
+    def ok(s):
+        return True
+
+    for planner in ("RRT", "RRTStar"):
+        for kind, k in (("kth", 1), ("kth", 2), ("kth", 7), ("half", 0)):
+            for fail_mode in ("raise", "none"):
+                res = []
+                for reference in (False, True):
+                    goal = PartialGoal(space, 5.0, 5.0, 0.8, kind, k, fail_mode, reference)
+                    pd = ProblemDefinition.from_real_vector(space, start, goal)
+                    with contextlib.redirect_stderr(io.StringIO()):
+                        res.append(run(planner, pd, seed, ok, timeout=3.0))
+                if res[0] != res[1] and not (res[0][0] == "error" and res[1][0] == "error"):
+                    report("py-goal", seed, "C20 %s goal.is_satisfied failing (%s) %s: result %s differs from the run whose is_satisfied returns False on the same calls / states (%s)" % (
+                        planner, fail_mode, "on call %d" % k if kind == "kth" else "on the half of the goal facing the start", (res[0][0] + ":" + str(res[0][1])[:70]), (res[1][0] + ":" + str(res[1][1])[:70])))
+
+
+class AngleGoal:
+    def __init__(self, space, target, r):
+        self.space, self.c, self.r = space, target, r
+
+    def is_satisfied(self, s):
+        return self.space.distance(self.c, s) <= self.r
+
+    def distance_goal(self, s):
+        return max(0.0, self.space.distance(self.c, s) - self.r)
+
+    def sample_goal(self):
+        return self.c
+
+
+def fam_validity_rotations(seed):
+    """the same fail-closed requirement for the SO(2) and SO(3) validity wrappers (each state type has its own impl)"""
+    so2 = SO2StateSpace()
+    so3 = SO3StateSpace()
+    h = math.sqrt(0.5)
+    cases = [("SO2", lambda g: ProblemDefinition.from_so2(so2, SO2State(-1.5), g), AngleGoal(so2, SO2State(1.5), 0.1), lambda s: abs(s.value) < 0.4, 0.2),
+             ("SO3", lambda g: ProblemDefinition.from_so3(so3, SO3State(0.0, 0.0, -h, h), g), AngleGoal(so3, SO3State(0.0, 0.0, h, h), 0.15), lambda s: so3.distance(SO3State.identity(), s) < 0.5, 0.3)]
+    for name, mk, goal, in_fault, step in cases:
+        for planner in ("RRT", "RRTConnect"):
+            for mode in ("raises", "none", "truthy_int"):
+                def checker(s, mode=mode):
+                    if in_fault(s):
+                        if mode == "raises":
+                            raise Boom("validity callback failed")
+                        return None if mode == "none" else 1
+                    return True
+
+                def ref_checker(s):
+                    return not in_fault(s)
+
+                def solve(chk):
+                    cfg = PlannerConfig(seed=seed)
+                    p = (RRT if planner == "RRT" else RRTConnect)(max_distance=step, goal_bias=0.1, problem_definition=mk(goal), planner_config=cfg)
+                    try:
+                        with contextlib.redirect_stdout(io.StringIO()):
+                            p.setup(chk)
+                            path = p.solve(timeout_secs=1.5)
+                        return "path", path.states
+                    except BaseException as e:
+                        return "error", "%s: %s" % (type(e).__name__, str(e)[:100])
+                with contextlib.redirect_stderr(io.StringIO()):
+                    kind, out = solve(checker)
+                kind2, out2 = solve(ref_checker)
+                tag = "C20 %s %s validity callback mode=%s" % (planner, name, mode)
+                if kind == "path":
+                    bad = [s for s in out if in_fault(s)]
+                    if bad:
+                        report("py-validity", seed, "%s: the returned path contains a state on which the callback %s" % (tag, "raised" if mode == "raises" else "did not return a bool"))
+                if kind != kind2:
+                    report("py-validity", seed, "%s: outcome %s differs from the run whose callback returns False on those states (%s)" % (tag, kind, kind2))
+
+
 def main():
     seed = int(sys.argv[1]) if len(sys.argv) > 1 else 0
     fam_validity(seed)
+    fam_validity_rotations(seed)
     fam_goal(seed)
+    fam_goal_partial(seed)
     sys.exit(1 if HITS else 0)
 
 
